@@ -434,6 +434,8 @@ def C04():
                          functions=["constructor + Message::write"], timeout=1500, mem_gb=12))
     jobs.append(MirJob("c04_mir_ntlm_authenticate_layout", "NTLM AUTHENTICATE token: every (Len, MaxLen, BufferOffset) addresses its field for all field lengths < 65536 and all flags; Version field consistent with the offset base (shared with C15)", mirjobs.authenticate_layout))
     jobs.append(MirJob("c04_mir_info_packet_counts", "Client Info: cbDomain/cbUserName/cbPassword equal the byte size of the UTF-16 buffers actually sent minus the 2-byte terminator, for every string (SMT on the lengths)", mirjobs.info_packet_counts))
+    jobs.append(MirJob("c04_mir_mcs_send_data_request", "mcs::Client::write: SendDataRequest opcode, initiator = user id - 1001 for every user id >= 1001 (SMT), channel id of the requested channel, 0x70, PER length of exactly the message sent, the message; lower layer's result returned",
+                       mirjobs.mcs_send_data_request))
     jobs.append(MirJob("c04_mir_layouts", "56 record constructors (TPKT, X.224, GCC blocks, info packet, licence, share headers, finalisation PDUs, input events, 13 capability sets, NTLM messages): the (field, width, byte order, constant, optional / counted / fixed-size) sequence extracted from the MIR equals the structure transcribed from MS-RDPBCGR / MS-NLMP / T.123 / X.224",
                        mirjobs.layout_tables))
     jobs.append(MirJob("c04_mir_utf16_encoders", "String::to_unicode and nla::ntlm::unicode (every name, domain, user and password goes through one of them): every unit of str::encode_utf16 is written, unconverted, little-endian; confirmed against a from-the-definition UTF-16LE encoder on BMP and non-BMP text",
